@@ -56,7 +56,7 @@ Proof.
   - intros; apply ifold_nil.
   - intros cs cs' r _ Hg. eapply igetr_idem; eauto. unfold chan_inv. rewrite Hm. exact I.
   - intros; eapply igetr_nodup; eauto.
-  - intros; apply ifold_app_pregel; auto.
+  - intros cs A B Q cs1 r _ HA HAB. rewrite <- HAB. symmetry. apply ifold_app_pregel; auto.
   - intros; eapply ifold_prefix_pregel; eauto.
   - intros; eapply ifold_perm_pregel; eauto.
 Qed.
